@@ -853,6 +853,207 @@ pub proof fn lemma_add_pack(s0: int, s1: int, s2: int, p0: int, p1: int, p2: int
 }
 
 // ------------------------------------------------------------------------------------------------
+// the same three phases on machine words, statement by statement as in `finalize` (helper specs taken from the
+// code); the lemmas connect them to the arithmetic versions above, so that the body of `finalize` carries no
+// div/mod reasoning at all
+// ------------------------------------------------------------------------------------------------
+/// crude bounds that make the u64 additions of `finalize` overflow-free
+pub proof fn lemma_bits64_bounds()
+    ensures
+        forall|x: u64| #[trigger] (x & 0xfffffffffff) <= 0xfffffffffff,
+        forall|x: u64| #[trigger] (x & 0x3ffffffffff) <= 0x3ffffffffff,
+        forall|x: u64| #[trigger] (x >> 44) <= 0xfffff,
+        forall|x: u64| #[trigger] (x >> 42) <= 0x3fffff,
+{
+    assert forall|x: u64| #[trigger] (x & 0xfffffffffff) <= 0xfffffffffff by {
+        assert((x & 0xfffffffffff) <= 0xfffffffffff) by (bit_vector);
+    }
+    assert forall|x: u64| #[trigger] (x & 0x3ffffffffff) <= 0x3ffffffffff by {
+        assert((x & 0x3ffffffffff) <= 0x3ffffffffff) by (bit_vector);
+    }
+    assert forall|x: u64| #[trigger] (x >> 44) <= 0xfffff by {
+        assert((x >> 44) <= 0xfffff) by (bit_vector);
+    }
+    assert forall|x: u64| #[trigger] (x >> 42) <= 0x3fffff by {
+        assert((x >> 42) <= 0x3fffff) by (bit_vector);
+    }
+}
+
+pub open spec fn pl_carry_u(h0: u64, h1: u64, h2: u64) -> (u64, u64, u64) {
+    let c = h1 >> 44;
+    let h1 = h1 & 0xfffffffffff;
+    let h2 = (h2 + c) as u64;
+    let c = h2 >> 42;
+    let h2 = h2 & 0x3ffffffffff;
+    let h0 = (h0 + c * 5) as u64;
+    let c = h0 >> 44;
+    let h0 = h0 & 0xfffffffffff;
+    let h1 = (h1 + c) as u64;
+    (h0, h1, h2)
+}
+
+pub proof fn lemma_carry_u(h0: u64, h1: u64, h2: u64)
+    requires
+        h0 <= 0x1fffffffffff,
+        h1 <= 0x1fffffffffff,
+        h2 <= 0x3ffffffffff,
+    ensures
+        ({
+            let f = pl_carry_u(h0, h1, h2);
+            (f.0 as int, f.1 as int, f.2 as int) == pl_carry_pass(h0 as int, h1 as int, h2 as int)
+        }),
+{
+    lemma_bits64();
+}
+
+pub open spec fn pl_select_u(h0: u64, h1: u64, h2: u64) -> (u64, u64, u64) {
+    let g0 = h0.wrapping_add(5);
+    let c = g0 >> 44;
+    let g0 = g0 & 0xfffffffffff;
+    let g1 = h1.wrapping_add(c);
+    let c = g1 >> 44;
+    let g1 = g1 & 0xfffffffffff;
+    let g2 = (h2.wrapping_add(c)).wrapping_sub(1u64 << 42);
+    let mask = (g2 >> 63).wrapping_sub(1);
+    let g0 = g0 & mask;
+    let g1 = g1 & mask;
+    let g2 = g2 & mask;
+    let mask = !mask;
+    ((h0 & mask) | g0, (h1 & mask) | g1, (h2 & mask) | g2)
+}
+
+pub proof fn lemma_select_u(b0: u64, b1: u64, b2: u64)
+    requires
+        b0 <= 0xfffffffffff,
+        b1 <= 0xfffffffffff,
+        b2 <= 0x3ffffffffff,
+    ensures
+        ({
+            let s = pl_select_u(b0, b1, b2);
+            (s.0 as int, s.1 as int, s.2 as int) == pl_select(b0 as int, b1 as int, b2 as int)
+        }),
+{
+    lemma_bits64();
+    let g0w = b0.wrapping_add(5);
+    let c = g0w >> 44;
+    let g0 = g0w & 0xfffffffffff;
+    let g1w = b1.wrapping_add(c);
+    let c2 = g1w >> 44;
+    let g1 = g1w & 0xfffffffffff;
+    let y = b2.wrapping_add(c2);
+    assert((1u64 << 42) == 0x40000000000) by (bit_vector);
+    let g2 = y.wrapping_sub(1u64 << 42);
+    assert(g2 >> 63 == (if g2 >= 0x8000_0000_0000_0000u64 { 1u64 } else { 0u64 })) by (bit_vector);
+    let mask = (g2 >> 63).wrapping_sub(1);
+    assert(y <= 0x40000000000);
+    assert(mask == (if y >= 0x40000000000 { 0xffff_ffff_ffff_ffffu64 } else { 0u64 }));
+    assert(y >= 0x40000000000 ==> g2 == 0);
+    let nm = !mask;
+    assert(((b0 & nm) | (g0 & mask)) == (if mask == 0 { b0 } else { g0 })) by (bit_vector)
+        requires
+            nm == !mask,
+            mask == 0 || mask == 0xffff_ffff_ffff_ffffu64,
+    ;
+    assert(((b1 & nm) | (g1 & mask)) == (if mask == 0 { b1 } else { g1 })) by (bit_vector)
+        requires
+            nm == !mask,
+            mask == 0 || mask == 0xffff_ffff_ffff_ffffu64,
+    ;
+    assert(((b2 & nm) | (g2 & mask)) == (if mask == 0 { b2 } else { g2 })) by (bit_vector)
+        requires
+            nm == !mask,
+            mask == 0 || mask == 0xffff_ffff_ffff_ffffu64,
+    ;
+}
+
+pub open spec fn pl_addpack_u(h0: u64, h1: u64, h2: u64, t0: u64, t1: u64) -> (u64, u64) {
+    let h0 = h0.wrapping_add(t0 & 0xfffffffffff);
+    let c = h0 >> 44;
+    let h0 = h0 & 0xfffffffffff;
+    let h1 = h1.wrapping_add((((t0 >> 44) | (t1 << 20)) & 0xfffffffffff).wrapping_add(c));
+    let c = h1 >> 44;
+    let h1 = h1 & 0xfffffffffff;
+    let h2 = h2.wrapping_add(((t1 >> 24) & 0x3ffffffffff).wrapping_add(c));
+    let h2 = h2 & 0x3ffffffffff;
+    (h0 | (h1 << 44), (h1 >> 20) | (h2 << 24))
+}
+
+pub proof fn lemma_addpack_u(s0: u64, s1: u64, s2: u64, t0: u64, t1: u64)
+    requires
+        s0 <= 0xfffffffffff,
+        s1 <= 0xfffffffffff,
+        s2 <= 0x3ffffffffff,
+    ensures
+        ({
+            let o = pl_addpack_u(s0, s1, s2, t0, t1);
+            o.0 as int + (o.1 as int) * pl_c64() == (pl_lv(s0 as int, s1 as int, s2 as int) + (t0 as int + (t1 as int)
+                * pl_c64())) % pl_c128()
+        }),
+{
+    lemma_bits64();
+    lemma_split_t(t0, t1, 0);
+    let p0 = t0 & 0xfffffffffff;
+    let p1 = ((t0 >> 44) | (t1 << 20)) & 0xfffffffffff;
+    let p2 = (t1 >> 24) & 0x3ffffffffff;
+    assert((p2 | 0) == p2) by (bit_vector);
+    let x0w = s0.wrapping_add(p0);
+    let c = x0w >> 44;
+    let x0 = x0w & 0xfffffffffff;
+    let x1w = s1.wrapping_add(p1.wrapping_add(c));
+    let c2 = x1w >> 44;
+    let x1 = x1w & 0xfffffffffff;
+    let x2w = s2.wrapping_add(p2.wrapping_add(c2));
+    let x2 = x2w & 0x3ffffffffff;
+    let o0 = x0 | (x1 << 44);
+    let o1 = (x1 >> 20) | (x2 << 24);
+    assert(o0 == x0 + (x1 % 0x100000) * 0x100000000000) by (bit_vector)
+        requires
+            o0 == x0 | (x1 << 44),
+            x0 <= 0xfffffffffff,
+            x1 <= 0xfffffffffff,
+    ;
+    assert(o1 == x1 / 0x100000 + (x2 % 0x10000000000) * 0x1000000) by (bit_vector)
+        requires
+            o1 == (x1 >> 20) | (x2 << 24),
+            x1 <= 0xfffffffffff,
+            x2 <= 0x3ffffffffff,
+    ;
+    lemma_add_pack(s0 as int, s1 as int, s2 as int, p0 as int, p1 as int, p2 as int);
+    assert((o0 as int, o1 as int) == pl_add_pack(s0 as int, s1 as int, s2 as int, p0 as int, p1 as int, p2 as int));
+}
+
+/// everything `finalize` does after the last block, on machine words
+pub open spec fn pl_finalize_u(h0: u64, h1: u64, h2: u64, t0: u64, t1: u64) -> (u64, u64) {
+    let e = pl_carry_u(h0, h1, h2);
+    let b = pl_carry_u(e.0, e.1, e.2);
+    let s = pl_select_u(b.0, b.1, b.2);
+    pl_addpack_u(s.0, s.1, s.2, t0, t1)
+}
+
+pub proof fn lemma_finalize_u(h0: u64, h1: u64, h2: u64, t0: u64, t1: u64)
+    requires
+        pl_wf_h(h0, h1, h2),
+    ensures
+        ({
+            let o = pl_finalize_u(h0, h1, h2, t0, t1);
+            o.0 as int + (o.1 as int) * pl_c64() == (pl_lv(h0 as int, h1 as int, h2 as int) % pl_p() + (t0 as int + (
+            t1 as int) * pl_c64())) % pl_c128()
+        }),
+{
+    let e = pl_carry_u(h0, h1, h2);
+    lemma_carry_u(h0, h1, h2);
+    lemma_full_carry(h0 as int, h1 as int, h2 as int);
+    let ei = pl_carry_pass(h0 as int, h1 as int, h2 as int);
+    assert(0 <= ei.0 <= 0xfffffffffff && 0 <= ei.1 <= 0x100000000000 && 0 <= ei.2 <= 0x3ffffffffff);
+    let b = pl_carry_u(e.0, e.1, e.2);
+    lemma_carry_u(e.0, e.1, e.2);
+    lemma_select_u(b.0, b.1, b.2);
+    lemma_select(b.0 as int, b.1 as int, b.2 as int);
+    let s = pl_select_u(b.0, b.1, b.2);
+    lemma_addpack_u(s.0, s.1, s.2, t0, t1);
+}
+
+// ------------------------------------------------------------------------------------------------
 // bytes
 // ------------------------------------------------------------------------------------------------
 /// nat_to_le is the inverse of le_nat
